@@ -1,0 +1,228 @@
+//go:build verif
+
+// Contracts for package message (checked by /verif/govc; compiled only with -tags verif).
+// Besides the //@ contract comments this file holds ghost lemma functions: Go functions with an
+// empty effect whose contract is a lemma and whose loop invariant is the induction; they are
+// verified like any other function and "called" where the lemma is needed.
+package message
+
+// ---- option header layout (RFC 7252 section 3.1) -----------------------------------------------
+//
+// A delta or length x is written as a 4-bit nibble plus 0/1/2 extension bytes:
+//   x in 0..12      nibble x,  no extension
+//   x in 13..268    nibble 13, one byte  x-13
+//   x in 269..65804 nibble 14, two bytes x-269 (big endian)
+//
+//@ spec nib(x int) int  = ite(x < 13, x, ite(x < 269, 13, 14))
+//@ spec hs(x int) int   = ite(x < 13, 0, ite(x < 269, 1, 2))
+//@ spec extv(x int) int = ite(x < 13, 0, ite(x < 269, x - 13, x - 269))
+//@ spec extByte(x int, i int) int = ite(x < 269, x - 13, ite(i == 0, (x - 269) / 256, (x - 269) % 256))
+//@ spec hdrByte(d int, l int, k int) int = ite(k == 0, 16*nib(d) + nib(l), ite(k < 1 + hs(d), extByte(d, k - 1), extByte(l, k - 1 - hs(d))))
+//@ spec hdrAt(b []byte, p int, d int, l int) bool = forall k int :: {b[k]} p <= k && k < p + 1 + hs(d) + hs(l) ==> b[k] == hdrByte(d, l, k - p)
+//@ spec optLen(d int, l int) int = 1 + hs(d) + hs(l) + l
+//
+//@ func extendOpt(opt int) (o int, ext int)
+//@   ensures [nibble] o == nib(opt)
+//@   ensures [ext] ext == extv(opt)
+//
+//@ func VerifyOptLen(optID OptionID, valueLen int) (r bool)
+//@   ensures [registry] r <==> (valueLen >= CoapOptionDefs[optID].MinLen && valueLen <= CoapOptionDefs[optID].MaxLen)
+//
+//@ func marshalOptionHeaderExt(buf []byte, opt int, ext int) (n int, err error)
+//@   requires 0 <= ext && ext <= 65535 && (opt == 13 ==> ext <= 255)
+//@   modifies buf[0 : min(len(buf), ite(opt == 13, 1, ite(opt == 14, 2, 0)))]
+//@   ensures [size] n == ite(opt == 13, 1, ite(opt == 14, 2, 0))
+//@   ensures [fits-iff] (err == nil) <==> len(buf) >= n
+//@   ensures [err-kind] err != nil ==> err == ErrTooSmall
+//@   ensures [byte] err == nil && opt == 13 ==> buf[0] == ext
+//@   ensures [word] err == nil && opt == 14 ==> buf[0] == ext / 256 && buf[1] == ext % 256
+//
+//@ func marshalOptionHeader(buf []byte, delta int, length int) (n int, err error)
+//@   requires 0 <= delta && delta <= 65804 && 0 <= length && length <= 65804
+//@   modifies buf[0 : min(len(buf), 1 + hs(delta) + hs(length))]
+//@   ensures [size] n == 1 + hs(delta) + hs(length)
+//@   ensures [fits-iff] (err == nil) <==> len(buf) >= n
+//@   ensures [err-kind] err != nil ==> err == ErrTooSmall
+//@   ensures [layout] err == nil ==> hdrAt(buf, 0, delta, length)
+//
+//@ func parseExtOpt(data []byte, opt int) (n int, v int, err error)
+//@   requires 0 <= opt && opt <= 15
+//@   ensures [size] err == nil ==> n == ite(opt == 13, 1, ite(opt == 14, 2, 0))
+//@   ensures [accept-iff] (err == nil) <==> len(data) >= ite(opt == 13, 1, ite(opt == 14, 2, 0))
+//@   ensures [err-kind] err != nil ==> err == ErrOptionTruncated
+//@   ensures [value] err == nil ==> v == ite(opt == 13, 13 + data[0], ite(opt == 14, 269 + 256*data[0] + data[1], opt))
+//
+//@ func (Option) MarshalValue(buf []byte) (n int, err error)
+//@   modifies buf[0 : min(len(buf), len(o.Value))]
+//@   ensures [size] n == len(o.Value)
+//@   ensures [fits-iff] (err == nil) <==> len(buf) >= len(o.Value)
+//@   ensures [err-kind] err != nil ==> err == ErrTooSmall
+//@   ensures [bytes] err == nil ==> bytesEqOld(buf[0:len(o.Value)], o.Value)
+//
+//@ func (*Option) UnmarshalValue(buf []byte) (n int, err error)
+//@   requires o != nil
+//@   modifies o.Value
+//@   ensures [alias] err == nil && n == len(buf) && o.Value == buf
+//
+//@ func (Option) Marshal(buf []byte, previousID OptionID) (n int, err error)
+//@   requires o.ID >= previousID && len(o.Value) <= 65804
+//@   requires disjoint(buf, o.Value)
+//@   modifies buf[0 : min(len(buf), optLen(o.ID - previousID, len(o.Value)))]
+//@   ensures [size] n == optLen(o.ID - previousID, len(o.Value))
+//@   ensures [fits-iff] (err == nil) <==> len(buf) >= n
+//@   ensures [err-kind] err != nil ==> err == ErrTooSmall
+//@   ensures [header] err == nil ==> hdrAt(buf, 0, o.ID - previousID, len(o.Value))
+//@   ensures [value] err == nil ==> bytesEqOld(buf[n - len(o.Value) : n], o.Value)
+//
+// ---- option list encoding -------------------------------------------------------------------
+//
+//@ spec prevID(o Options, j int) int = ite(j <= 0, 0, o[j-1].ID)
+//@ spec delta(o Options, j int) int = o[j].ID - prevID(o, j)
+//@ spec optSize(o Options, j int) int = optLen(delta(o, j), len(o[j].Value))
+//@ spec rec encLen(o Options, k int) int = ite(k <= 0, 0, encLen(o, k-1) + optSize(o, k-1))
+//@ spec sortedOpts(o Options) bool = forall i int, j int :: {o[i].ID, o[j].ID} 0 <= i && i < j && j < len(o) ==> o[i].ID <= o[j].ID
+//@ spec wfOptions(o Options) bool = sortedOpts(o) && len(o) <= 4294967296 && (forall j int :: {o[j].ID} 0 <= j && j < len(o) ==> len(o[j].Value) <= 65804)
+//@ spec optAt(b []byte, p int, o Options, j int) bool = hdrAt(b, p, delta(o, j), len(o[j].Value)) && bytesEqOld(b[p + 1 + hs(delta(o, j)) + hs(len(o[j].Value)) : p + optSize(o, j)], o[j].Value)
+//
+//@ spec optsAt(b []byte, o Options) bool = forall j int :: {encLen(o, j)} 0 <= j && j < len(o) ==> 0 <= encLen(o, j) && encLen(o, j) + optSize(o, j) <= encLen(o, len(o)) && optAt(b, encLen(o, j), o, j)
+//@ spec valuesDisjoint(b []byte, o Options) bool = forall j int :: {o[j].ID} 0 <= j && j < len(o) ==> disjoint(b, o[j].Value)
+//
+//@ func (Options) Marshal(buf []byte) (n int, err error)
+//@   requires wfOptions(options)
+//@   requires valuesDisjoint(buf, options)
+//@   modifies buf[0 : len(buf)]
+//@   ensures [size] n == encLen(options, len(options))
+//@   ensures [fits-iff] (err == nil) <==> (buf != nil && n <= len(buf))
+//@   ensures [err-kind] err != nil ==> err == ErrTooSmall
+//@   ensures [size-bound] 0 <= n && n <= 65809 * len(options)
+//@   ensures [layout] err == nil ==> optsAt(buf, options)
+//@   loop 0:
+//@     modifies buf[0 : len(buf)]
+//@     invariant 0 <= #iter && #iter <= len(options)
+//@     invariant length == encLen(options, #iter)
+//@     invariant 0 <= length && length <= 65809 * #iter
+//@     invariant previousID == prevID(options, #iter)
+//@     invariant buf == nil || buf == old(buf)
+//@     invariant buf != nil ==> length <= len(buf)
+//@     invariant [bounds] forall j int :: {encLen(options, j)} 0 <= j && j < #iter ==> 0 <= encLen(options, j) && encLen(options, j) + optSize(options, j) <= length
+//@     invariant [hdr] buf != nil ==> forall j int :: {encLen(options, j)} 0 <= j && j < #iter ==> hdrAt(old(buf), encLen(options, j), delta(options, j), len(options[j].Value))
+//@     invariant [val] buf != nil ==> forall j int :: {encLen(options, j)} 0 <= j && j < #iter ==> bytesEqOld(old(buf)[encLen(options, j) + 1 + hs(delta(options, j)) + hs(len(options[j].Value)) : encLen(options, j) + optSize(options, j)], options[j].Value)
+//@     invariant [too-small] buf == nil && old(buf) != nil ==> length > len(old(buf))
+//@     decreases len(options) - #iter
+//
+// ---- option list decoding: reference parser (RFC 7252 section 3.1) ------------------------------
+//
+// The reference parser is written over the raw byte string d and the index k of a raw option:
+// rawStart(d,k) is the byte offset of raw option k, rawNum(d,k) the running option number after k
+// options. Documented leniencies: options with registry-illegal length or unknown format are
+// dropped, option number 0 is dropped.
+//
+//@ spec hsn(n int) int = ite(n == 13, 1, ite(n == 14, 2, 0))
+//@ spec extVal(d []byte, q int, n int) int = ite(n < 13, n, ite(n == 13, 13 + d[q], 269 + 256*d[q] + d[q+1]))
+//@ spec rawDelta(d []byte, p int) int = extVal(d, p + 1, d[p] / 16)
+//@ spec rawLen(d []byte, p int) int = extVal(d, p + 1 + hsn(d[p] / 16), d[p] % 16)
+//@ spec rawHdr(d []byte, p int) int = 1 + hsn(d[p] / 16) + hsn(d[p] % 16)
+//@ spec rawSize(d []byte, p int) int = rawHdr(d, p) + rawLen(d, p)
+//@ spec rec rawStart(d []byte, k int) int = ite(k <= 0, 0, rawStart(d, k-1) + rawSize(d, rawStart(d, k-1)))
+//@ spec rec rawNum(d []byte, k int) int = ite(k <= 0, 0, rawNum(d, k-1) + rawDelta(d, rawStart(d, k-1)))
+//@ spec terminal(d []byte, p int) bool = p >= len(d) || d[p] == 255
+//@ spec rawOKAt(d []byte, p int, num int) bool = 0 <= p && p < len(d) && d[p] != 255 && d[p] / 16 != 15 && d[p] % 16 != 15 && p + rawHdr(d, p) <= len(d) && p + rawSize(d, p) <= len(d) && num + rawDelta(d, p) <= 65535
+//@ spec rawOK(d []byte, k int) bool = rawOKAt(d, rawStart(d, k), rawNum(d, k))
+//@ spec rawValPos(d []byte, k int) int = rawStart(d, k) + rawHdr(d, rawStart(d, k))
+//@ spec kept(defs map[OptionID]OptionDef, id int, n int) bool = !present(defs, id) || (defs[id].ValueFormat != 0 && n >= defs[id].MinLen && n <= defs[id].MaxLen)
+//@ spec keptRaw(d []byte, defs map[OptionID]OptionDef, k int) bool = rawNum(d, k+1) != 0 && kept(defs, rawNum(d, k+1), rawLen(d, rawStart(d, k)))
+//@ spec rec nKept(d []byte, defs map[OptionID]OptionDef, k int) int = ite(k <= 0, 0, nKept(d, defs, k-1) + ite(keptRaw(d, defs, k-1), 1, 0))
+//
+//@ spec prefixOK(d []byte, K int) bool = K >= 0 && (forall j int :: {rawStart(d, j)} 0 <= j && j < K ==> rawOK(d, j))
+//@ spec parsedOK(d []byte, K int) bool = prefixOK(d, K) && terminal(d, rawStart(d, K))
+//@ spec consumedBy(d []byte, K int) int = rawStart(d, K) + ite(rawStart(d, K) < len(d), 1, 0)
+//@ spec decodedOpts(o Options, base int, d []byte, defs map[OptionID]OptionDef, K int) bool = len(o) == base + nKept(d, defs, K) && (forall j int :: {rawStart(d, j)} 0 <= j && j < K && keptRaw(d, defs, j) ==> 0 <= nKept(d, defs, j) && nKept(d, defs, j) < nKept(d, defs, K) && o[base + nKept(d, defs, j)].ID == rawNum(d, j+1) && o[base + nKept(d, defs, j)].Value == d[rawValPos(d, j) : rawValPos(d, j) + rawLen(d, rawStart(d, j))])
+//
+//@ func (*Option) Unmarshal(data []byte, optionDefs map[OptionID]OptionDef, optionID OptionID) (n int, err error)
+//@   requires o != nil && len(data) < 4294967296
+//@   modifies o.ID, o.Value
+//@   ensures [consumes-all] err == nil && n == len(data)
+//@   ensures [kept] kept(optionDefs, optionID, len(data)) ==> o.ID == optionID && o.Value == data
+//@   ensures [dropped] !kept(optionDefs, optionID, len(data)) ==> o.ID == old(o.ID) && o.Value == old(o.Value)
+//
+//@ func (*Options) Unmarshal(data []byte, optionDefs map[OptionID]OptionDef) (n int, err error)
+//@   requires options != nil
+//@   modifies *options, (*options)[len(*options) : cap(*options)]
+//@   ensures [parsed] err == nil ==> parsedOK(data, #n0)
+//@   ensures [consumed] err == nil ==> n == consumedBy(data, #n0) && n <= len(data)
+//@   ensures [rejects] err != nil && !errors.Is(err, ErrOptionsTooSmall) ==> prefixOK(data, #n0) && !terminal(data, rawStart(data, #n0)) && !rawOK(data, #n0)
+//@   ensures [too-small-prefix] errors.Is(err, ErrOptionsTooSmall) ==> prefixOK(data, #n0)
+//@   ensures [too-small-ok] errors.Is(err, ErrOptionsTooSmall) ==> rawOK(data, #n0)
+//@   ensures [too-small-cap] errors.Is(err, ErrOptionsTooSmall) ==> cap(old(*options)) == len(old(*options)) + nKept(data, optionDefs, #n0)
+//@   ensures [n-err] err != nil ==> n == -1
+//@   ensures [same-array] (*options)[0:0] == old(*options)[0:0] && cap(*options) == cap(old(*options))
+//@   ensures [fields] err == nil ==> decodedOpts(*options, len(old(*options)), data, optionDefs, #n0)
+//@   ensures [prefix-kept] forall i int :: {(*options)[i].ID} 0 <= i && i < len(old(*options)) ==> (*options)[i] == old((*options)[i])
+//@   loop 0:
+//@     modifies *options, (*options)[len(*options) : cap(*options)]
+//@     invariant 0 <= #iter
+//@     invariant processed == rawStart(old(data), #iter) && prev == rawNum(old(data), #iter)
+//@     invariant 0 <= processed && processed <= len(old(data)) && 0 <= prev && prev <= 65535
+//@     invariant data == old(data)[processed:]
+//@     invariant forall j int :: {rawStart(old(data), j)} 0 <= j && j < #iter ==> rawOK(old(data), j)
+//@     invariant (*options)[0:0] == old(*options)[0:0] && cap(*options) == cap(old(*options))
+//@     invariant len(*options) == len(old(*options)) + nKept(old(data), optionDefs, #iter) && nKept(old(data), optionDefs, #iter) >= 0
+//@     invariant forall j int :: {rawStart(old(data), j)} 0 <= j && j < #iter && keptRaw(old(data), optionDefs, j) ==> 0 <= nKept(old(data), optionDefs, j) && nKept(old(data), optionDefs, j) < nKept(old(data), optionDefs, #iter) && (*options)[len(old(*options)) + nKept(old(data), optionDefs, j)].ID == rawNum(old(data), j+1) && (*options)[len(old(*options)) + nKept(old(data), optionDefs, j)].Value == old(data)[rawValPos(old(data), j) : rawValPos(old(data), j) + rawLen(old(data), rawStart(old(data), j))]
+//@     invariant forall i int :: {(*options)[i].ID} 0 <= i && i < len(old(*options)) ==> (*options)[i] == old((*options)[i])
+//@     decreases len(data)
+//
+//@ func ValidateMID(mid int32) (r bool)
+//@   ensures [range] r <==> (0 <= mid && mid <= 65535)
+//
+//@ func ValidateType(typ Type) (r bool)
+//@   ensures [wire-range] r <==> (0 <= typ && typ <= 3)
+//@   known-finding [wire-range] D3: 4 <= typ && typ <= 255
+//
+// ---- lemma: the reference parser reads an encoding back -----------------------------------------
+//
+// If d carries the encoding of the option list L (layout predicates in the current state) followed
+// by the end of data or the payload marker, then the reference parser finds exactly the options of
+// L at the encoder's offsets. Proved by induction on the option index (the ghost loop below).
+//
+//@ spec optAtNow(b []byte, p int, o Options, j int) bool = hdrAt(b, p, delta(o, j), len(o[j].Value)) && bytesEq(b[p + 1 + hs(delta(o, j)) + hs(len(o[j].Value)) : p + optSize(o, j)], o[j].Value)
+//@ spec optsAtNow(b []byte, o Options) bool = forall j int :: {encLen(o, j)} 0 <= j && j < len(o) ==> 0 <= encLen(o, j) && encLen(o, j) + optSize(o, j) <= encLen(o, len(o)) && optAtNow(b, encLen(o, j), o, j)
+//@ spec legalOpts(o Options, defs map[OptionID]OptionDef) bool = forall j int :: {o[j].ID} 0 <= j && j < len(o) ==> o[j].ID != 0 && kept(defs, o[j].ID, len(o[j].Value))
+//@ spec parsedAs(d []byte, o Options, defs map[OptionID]OptionDef, k int) bool = rawStart(d, k) == encLen(o, k) && rawNum(d, k) == prevID(o, k) && nKept(d, defs, k) == k
+//@ spec parsedOpt(d []byte, o Options, defs map[OptionID]OptionDef, j int) bool = rawOK(d, j) && keptRaw(d, defs, j) && rawLen(d, rawStart(d, j)) == len(o[j].Value) && rawValPos(d, j) == encLen(o, j) + 1 + hs(delta(o, j)) + hs(len(o[j].Value))
+//
+//@ func VerifParseOfEncoding(d []byte, o Options, defs map[OptionID]OptionDef)
+//@   requires wfOptions(o) && legalOpts(o, defs) && optsAtNow(d, o)
+//@   requires 0 <= encLen(o, len(o)) && encLen(o, len(o)) <= len(d) && (len(d) == encLen(o, len(o)) || d[encLen(o, len(o))] == 255)
+//@   modifies nothing
+//@   ensures [starts] forall j int :: {rawStart(d, j)} 0 <= j && j <= len(o) ==> parsedAs(d, o, defs, j)
+//@   ensures [options] forall j int :: {rawStart(d, j)} 0 <= j && j < len(o) ==> parsedOpt(d, o, defs, j)
+//@   ensures [terminal] terminal(d, rawStart(d, len(o)))
+//@   ensures [unique] forall K int :: {rawStart(d, K)} K >= 0 && prefixOK(d, K) ==> K <= len(o) && (terminal(d, rawStart(d, K)) ==> K == len(o)) && (rawOK(d, K) ==> K < len(o))
+//@   loop 0:
+//@     invariant 0 <= k && k <= len(o) && k == #iter
+//@     invariant parsedAs(d, o, defs, k)
+//@     invariant forall j int :: {rawStart(d, j)} 0 <= j && j < k ==> parsedAs(d, o, defs, j) && parsedOpt(d, o, defs, j)
+//@     apply k < len(o) ==> VerifHeaderParse(d, encLen(o, k), delta(o, k), len(o[k].Value))
+//@     assert [step] k < len(o) ==> parsedOpt(d, o, defs, k)
+//@     unfold rawStart(d, k), rawNum(d, k), nKept(d, defs, k), encLen(o, k), rawStart(d, k + 1), rawNum(d, k + 1), nKept(d, defs, k + 1), encLen(o, k + 1)
+//@     decreases len(o) - k
+
+// VerifParseOfEncoding is a ghost lemma (see the contract above); it has no effect.
+func VerifParseOfEncoding(d []byte, o Options, defs map[OptionID]OptionDef) {
+	for k := 0; k < len(o); k++ {
+	}
+}
+
+// ---- lemma: one option header written by the encoder is read back by the reference parser -------
+//
+//@ func VerifHeaderParse(d []byte, p int, dl int, l int)
+//@   requires 0 <= p && 0 <= dl && dl <= 65804 && 0 <= l && l <= 65804 && p + 1 + hs(dl) + hs(l) <= len(d)
+//@   requires hdrAt(d, p, dl, l)
+//@   modifies nothing
+//@   ensures [delta] rawDelta(d, p) == dl
+//@   ensures [length] rawLen(d, p) == l
+//@   ensures [hdr] rawHdr(d, p) == 1 + hs(dl) + hs(l)
+//@   ensures [nibbles] d[p] != 255 && d[p] / 16 != 15 && d[p] % 16 != 15
+
+// VerifHeaderParse is a ghost lemma (see the contract above); it has no effect.
+func VerifHeaderParse(d []byte, p int, dl int, l int) {}
